@@ -58,6 +58,26 @@ Theorem C06_no_uninit_on_guard : forall ds, ds_shape_prop ds -> ds_local_prop ds
 Proof. exact no_uninit_on_guard. Qed.
 Print Assumptions C06_no_uninit_on_guard.
 
+(* Stronger: for any geometry with positive sizes, a run that does not raise
+   OUTSIDE the stretch class (half chunk of exactly 1 facing min(new chunk,
+   new size) >= 3 along some axis) is a compat geometry - so the length-1
+   stretch is the ONLY way compute_dyadic_downscaling can write a wrong level
+   without raising. *)
+Theorem C06_ok_outside_stretch_is_compat : forall ds, ds_shape_prop ds ->
+  forall g lvl chunks,
+  geom_pos g = true -> tile_level ds g lvl = Ok chunks -> stretch_class g = false ->
+  compat g = true.
+Proof. exact ok_outside_stretch_is_compat. Qed.
+Print Assumptions C06_ok_outside_stretch_is_compat.
+
+Theorem C06_tiling_sound_outside_stretch : forall ds, ds_shape_prop ds -> ds_local_prop ds ->
+  forall g lvl chunks,
+  geom_pos g = true -> stretch_class g = false -> a_sh lvl = g_os g -> a_c lvl = g_ch g ->
+  tile_level ds g lvl = Ok chunks ->
+  Forall (chunk_is_restriction ds g lvl) chunks.
+Proof. exact tiling_sound_outside_stretch. Qed.
+Print Assumptions C06_tiling_sound_outside_stretch.
+
 (* Outside the guard the property fails: old chunks (8,2,2) -> new chunks
    (8,4,4) on sizes (9,5,1) -> (5,3,1), factors (2,2,1).  Along y the half
    chunk is 1 and the new chunk has 3 rows: NumPy repeats the single
@@ -87,6 +107,26 @@ Theorem C06_next_level_exact : forall ds poison, ds_shape_prop ds -> ds_local_pr
       a_get nl c q = a_get (ds (factors (geom_of ch s0 s1)) lvl) c q.
 Proof. exact next_level_exact. Qed.
 Print Assumptions C06_next_level_exact.
+
+(* The whole level loop (compute_dyadic_scales): when every consecutive pair
+   of scales is compat, nothing is raised and every level is the whole previous
+   level downscaled once (arr_eq = same extents, same voxels); the three
+   downscalers only look inside the array (ds_ext_prop). *)
+Theorem C06_downscalers_ext :
+  ds_ext_prop ds_stride /\ ds_ext_prop ds_avg /\ ds_ext_prop ds_majority.
+Proof. exact (conj stride_ext (conj avg_ext majority_ext)). Qed.
+Print Assumptions C06_downscalers_ext.
+
+Theorem C06_pyramid_exact : forall ds poison,
+  ds_shape_prop ds -> ds_local_prop ds -> ds_ext_prop ds ->
+  forall ch scales lvl lvl',
+  all_pairs_ok compat ch scales = true ->
+  (forall s0, hd_error scales = Some s0 -> a_sh lvl = sg_size s0) -> a_c lvl = ch ->
+  arr_eq lvl lvl' ->
+  exists out, pyramid ds poison ch scales lvl = Ok out /\
+              Forall2 arr_eq out (pyramid_ref ds scales lvl').
+Proof. exact pyramid_exact. Qed.
+Print Assumptions C06_pyramid_exact.
 
 (* Composition with the scale generator (C08): the scales the generator emits
    CAN reach the silent class - for 65 x 5 x 1 voxels at 1:8:32 nm and target
